@@ -202,6 +202,7 @@ enum Guards : unsigned
 {
     G_NONE = 0,
     G_MOVEASSIGN_UNITS = 1,  // KF-1: unequal-allocator move assignment into a smaller target over-allocates (bytes taken for units)
+    G_VECTOR_ORDER_PARTIAL = 2,  // KF-2: vector < is a lexicographical compare over a partial element order: not transitive
 };
 
 ConfigEntry& the_config();  // defined by the generated configuration TU
